@@ -130,6 +130,11 @@ def resolve_cases(ctx, env_ctl, n):
                 exp = env.get(key)
             if obs != exp:
                 ctx.fail("setting %s resolved to %r, documented precedence gives %r" % (key, obs, exp), j, tag="precedence")
+            # a setting that has no environment-backed default of its own (credentials of the auth provider, plugin switches, ...)
+            # works from the environment: its DEEP_ variable IS its value when the code gives none - whatever deep.config declares
+            if key in UNKNOWN_KEYS and cval is None and key in env and obs != env[key]:
+                ctx.fail("setting %s is given as DEEP_%s=%r and not in code, and resolves to %r: it does not work from the environment" % (
+                    key, key, env[key], obs), j, tag="environment-not-read")
         try:
             lit = "{| rv_own := %s; rv_custom := %s; rv_dflt := %s; rv_env := %s; rv_obs := %s |}" % (
                 L.opt(enc_cv(own) if key in ("resource", "plugins") else None),
